@@ -104,7 +104,7 @@ def job_text(job):
 
 
 def describe(job, style, dicts, text=None):
-    d = {k: job[k] for k in ("path", "variant", "vseed", "config", "cseed", "fix_only_all", "fix_only_lines", "fix_phase", "skip_phase") if k in job}
+    d = {k: job[k] for k in ("path", "variant", "vseed", "config", "cseed", "fix_only_all", "fix_only_lines", "fix_phase", "skip_phase", "directed_rule") if k in job}
     d["style"] = style
     d["config_dicts"] = dicts
     if text is not None:
@@ -243,7 +243,9 @@ def run_job_inner(job):
             r._get_tokens_of_interest = mk()
 
     def on_step(st):
-        if "idem" in feats and st.kind == "fix" and st.changed and st.exc is None and not _selects_lines(job.get("fix_only")):
+        # ... also for the rule a directed job is about when its first fix changed NOTHING: "applying the fix a second time
+        # changes nothing" holds for that case too (a first analysis that sees other options than the second one)
+        if "idem" in feats and st.kind == "fix" and (st.changed or st.rule == job.get("directed_rule")) and st.exc is None and not _selects_lines(job.get("fix_only")):
             # C10: the same rule, immediately again, on a deep copy of the model.  Not under a --fix_only file that
             # lists LINES: the first fix then repairs the listed lines only, and a structural fix shifts the
             # remaining violations onto listed line numbers, so "nothing left to fix" is not what C10 promises there
@@ -445,6 +447,15 @@ def make_jobs(tier, features=("trace",), limit=None):
     # else), a third of them also flush left (what phases 1-3 see before phase 4 has indented anything)
     for i, p in enumerate(directed_files(files)):
         jobs.append({"path": p, "variant": "orig", "config": "all_enabled", "features": feats})
+        # one yes / no option of the rule the file was written for flipped and given as a boolean (an unquoted YAML
+        # yes / no), that rule watched even when its first fix changes nothing
+        rid = directed_rule_of(p)
+        row = _rule_rows().get(rid)
+        if row is not None:
+            for nm in row["configuration"]:
+                dv = row["defaults"].get(nm)
+                if nm not in ("disable", "fixable") and (dv in ("yes", "no") or dv is True or dv is False):
+                    jobs.append({"path": p, "variant": "orig", "config": "flip1/%s/%s" % (rid, nm), "features": feats, "directed_rule": rid})
         if i % 3 == 0:
             jobs.append({"path": p, "variant": "flush", "vseed": 0, "config": "default" if i % 2 else "all_enabled", "features": feats})
     # directed: already-fixed files (few or no structural violations) with nothing but trailing blanks added, and
@@ -456,6 +467,28 @@ def make_jobs(tier, features=("trace",), limit=None):
     if limit:
         jobs = jobs[:limit]
     return jobs
+
+
+_ROWS = {}
+
+
+def _rule_rows():
+    """rule rows of the generated tables by id (kept apart from _W: other modules test `if not sweep._W` before _init)"""
+    if "rows" not in _ROWS:
+        try:
+            t = _W.get("tables") or json.load(open(os.path.join(common.CACHE, "tables.json")))
+            _ROWS["rows"] = {r["id"]: r for r in t["rules"] if not r["deprecated"] and r["phase"] != 0}
+        except Exception:  # noqa: BLE001
+            _ROWS["rows"] = {}
+    return _ROWS["rows"]
+
+
+def directed_rule_of(path):
+    """tests/<group>/rule_NNN_test_input*.vhd -> <group>_NNN"""
+    import re
+
+    m = re.search(r"/([a-z_0-9]+)/rule_(\d+)_test_input", path)
+    return "%s_%s" % (m.group(1), m.group(2)) if m else None
 
 
 def directed_files(files):
